@@ -62,6 +62,29 @@ PROPS["C08"] = dict(
                "a typed secondary index; TLC requires each to fail and the complete observation (GetItem of every key, Scan, every index, "
                "DescribeTable) after it to be that of the unchanged specification state.",
 )
+PROPS["C02"] = dict(
+    title="Query and Scan return exactly the matching items, in sort-key order",
+    quick=[G("M_READ")],
+    thorough=[G("M_READ", cfg="M_READ_t")],
+    own=[parts("Outcome", "Data", "NoCrash")],
+    when=lambda f: f["op"] in ("Query", "Scan"),
+    design_ref="DESIGN.md 6 C02",
+    level_text="Every Query / Scan of a menu (partition x sort-key condition {=,<,<=,>,>=,BETWEEN,begins_with} x filter x direction x "
+               "base table / two global secondary indexes) is issued in every reachable content of a bounded hash+range table on both clients; "
+               "TLC judges each response against the declarative result: the matching set exactly once, ordered by the index's sort key, Count = |Items|.",
+)
+PROPS["C04"] = dict(
+    title="paginating with any Limit equals one unpaginated read",
+    quick=[G("M_READ", cfg="M_WALK")],
+    thorough=[G("M_READ", cfg="M_WALK_t")],
+    own=[parts("Outcome", "Data", "NoCrash")],
+    when=lambda f: f["op"] == "Walk",
+    design_ref="DESIGN.md 6 C04",
+    level_text="For every reachable content of a bounded table with two indexes, every walk of a menu of Query / Scan shapes with Limit 1..3 is "
+               "performed on both clients - plain, and with the item named by the first LastEvaluatedKey deleted before the next page; TLC "
+               "checks page sizes, that a missing LastEvaluatedKey coincides with completion, finiteness, and that the concatenated pages equal "
+               "the client's own unpaginated answer (minus the deleted item), which itself is judged against the specification.",
+)
 
 # properties deliberately not claimed, with the reason (none so far: unbuilt ones get a work-in-progress reason)
 NOT_CLAIMED = {}
